@@ -209,7 +209,10 @@ const KINDS: &[(&str, &str)] = &[
     ("somerc", "north"), ("somerc", "south"), ("somerc", "equator"),
     ("tmerc", "wrap"), ("utm", "wrap"), ("btmerc", "wrap"), ("butm", "wrap"), ("lcc", "wrap"), ("laea", "wrap"), ("omerc", "wrap"), ("somerc", "wrap"),
     ("gridshift", "datum"), ("gridshift", "geoid"), ("gridshift", "datum-list"),
-    ("deformation", "dt"), ("deformation", "t_epoch"),
+    ("deformation", "dt"), ("deformation", "t_epoch"), ("deformation", "dt+t_epoch"),
+    // parameter pairs of which one takes precedence, given together
+    ("merc", "lat_ts+k_0"), ("helmert", "mixed-spellings"), ("helmert", "static+epochs"),
+    ("molodensky", "full-all"), ("molodensky", "abridged-all"), ("lcc", "2sp-equal"),
 ];
 
 /// operators of the library that the catalogue knows but does not round-trip, with the reason
@@ -540,6 +543,36 @@ fn build(raw: &Raw) -> Case {
         }
         "helmert" => {
             def = "helmert".to_string();
+            let special = aspect == "mixed-spellings" || aspect == "static+epochs";
+            if special {
+                let v3 = |c: &mut Cur, m: f64, dec: i32, pzero: f64| -> [f64; 3] {
+                    let mut o = [0.0; 3];
+                    for k in o.iter_mut() {
+                        let v = rd(c.lin(-m, m), dec);
+                        *k = if c.flag(pzero) { 0.0 } else { v };
+                    }
+                    o
+                };
+                let (tl, ts) = (v3(&mut c, 1000.0, 4, 0.0), v3(&mut c, 1000.0, 4, 0.3));
+                let (rl, rs) = (v3(&mut c, 10.0, 5, 0.0), v3(&mut c, 10.0, 5, 0.3));
+                let conv = if c.flag(0.5) { "coordinate_frame" } else { "position_vector" };
+                if aspect == "mixed-spellings" {
+                    // the scalar spelling wins where it is not 0, otherwise the list element counts
+                    def.push_str(&format!(" translation={},{},{} x={} y={} z={}", tl[0], tl[1], tl[2], ts[0], ts[1], ts[2]));
+                    def.push_str(&format!(" rotation={},{},{} rx={} ry={} rz={}", rl[0], rl[1], rl[2], rs[0], rs[1], rs[2]));
+                    def.push_str(&format!(" scale={} s={} convention={conv}", rd(c.lin(-100.0, 100.0), 5), if c.flag(0.3) { 0.0 } else { rd(c.lin(-100.0, 100.0), 5) }));
+                    let rr: f64 = (0..3).map(|i| (rl[i].abs().max(rs[i].abs()) / 3600.0).to_radians().powi(2)).sum();
+                    q.push(F(rr));
+                } else {
+                    // no rates: t_epoch and t_obs have nothing to act on and the tuple epochs do not matter
+                    def.push_str(&format!(" x={} y={} z={} rx={} ry={} rz={} s={} convention={conv} exact", tl[0], tl[1], tl[2], rl[0], rl[1], rl[2], rd(c.lin(-100.0, 100.0), 5)));
+                    def.push_str(&format!(" t_epoch={} t_obs={}", rd(c.lin(1990.0, 2020.0), 2), rd(c.lin(1990.0, 2030.0), 2)));
+                    q.push(F(0.0));
+                }
+            }
+            let int = aspect == "translation-int";
+            let dynamic = aspect.starts_with("dynamic") || aspect == "t_obs" || aspect == "static+epochs";
+            if !special {
             let list = c.flag(0.4);
             let triple = |d: &mut String, names: [&str; 3], listname: &str, v: [f64; 3], list: bool| {
                 if list {
@@ -586,6 +619,7 @@ fn build(raw: &Raw) -> Case {
                 rmax2 = if exact { 0.0 } else { rr };
             }
             q.push(F(rmax2));
+            }
             pts = raw
                 .pts
                 .iter()
@@ -623,7 +657,28 @@ fn build(raw: &Raw) -> Case {
         "molodensky" => {
             def = "molodensky".to_string();
             let budget;
-            if aspect.ends_with("ellps01") {
+            if aspect.ends_with("-all") {
+                // ellps, ellps_0/ellps_1 and da/df all given: whichever rule of precedence applies,
+                // the tolerance covers every reading
+                let (mut x, mut y, mut z) = (EARTHLIKE[c.pick(10)], EARTHLIKE[c.pick(10)], EARTHLIKE[c.pick(10)]);
+                let da = rd(c.lin(-100.0, 100.0), 3);
+                let df = rd(c.lin(-60.0, 60.0) / EARTH_A, 12);
+                let delta = |x: &str, y: &str, z: &str| -> f64 {
+                    let (a1, f1) = builtin(z);
+                    [builtin(x), builtin(y), builtin("GRS80")]
+                        .iter()
+                        .map(|(a0, f0)| ((a1 - a0).abs() + a0 * (f1 - f0).abs()).max(da.abs() + a0 * df.abs()))
+                        .fold(0.0, f64::max)
+                };
+                if delta(x, y, z) > 330.0 {
+                    (x, y, z) = ("GRS80", "GRS80", "WGS84");
+                }
+                def.push_str(&format!(" ellps={x} ellps_0={y} ellps_1={z} da={da} df={df}"));
+                (a, f) = builtin(x);
+                ell = x.to_string();
+                budget = 400.0 - delta(x, y, z);
+                q.push(F(delta(x, y, z)));
+            } else if aspect.ends_with("ellps01") {
                 let (mut e0, mut e1) = (EARTHLIKE[c.pick(10)], EARTHLIKE[c.pick(10)]);
                 let delta = |e0: &str, e1: &str| -> f64 {
                     // the library may take ellps_0 or the context default (GRS80) as the source: cover both
@@ -809,6 +864,10 @@ fn build_projection(raw: &Raw, op: &str, aspect: &str, mut c: Cur, mut ell: Stri
             if aspect == "south" {
                 def.push_str(" south");
             }
+            if c.flag(0.25) {
+                // not in the gamut of utm: fixed by the zone, must be ignored in both directions
+                def.push_str(" lon_0=5 k_0=0.9 x_0=3 lat_0=10");
+            }
             ellps(&mut def, &mut c);
             let l0 = -183.0 + 6.0 * zone as f64;
             pts = raw.pts.iter().map(|p| { let (lon, lat) = globe(p, l0, 89.9, width); geo2(lon, lat, p) }).collect();
@@ -825,6 +884,11 @@ fn build_projection(raw: &Raw, op: &str, aspect: &str, mut c: Cur, mut ell: Stri
                     def.push_str(&format!(" lat_ts={ts}"));
                 }
                 "plain" if wrap => l0 = 0.0,
+                "lat_ts+k_0" => {
+                    // lat_ts (if not 0) takes precedence over k_0
+                    let ts = if c.flag(0.8) { rd(c.lin(-85.0, 85.0), 4) } else { 0.0 };
+                    def.push_str(&format!(" lat_ts={ts} k_0={}", rd(c.lin(0.5, 1.5), 6)));
+                }
                 "lon_0" => {
                     l0 = rd(c.lin(-180.0, 180.0), 4);
                     if l0 == 0.0 {
@@ -856,10 +920,14 @@ fn build_projection(raw: &Raw, op: &str, aspect: &str, mut c: Cur, mut ell: Stri
             pts = raw.pts.iter().map(|p| { let (lon, lat) = globe(p, 0.0, 89.9, 180.0); geo2(lon, lat, p) }).collect();
         }
         "lcc" => {
-            let south = aspect.ends_with("south") || (aspect == "lat_0" && c.flag(0.5)) || (aspect == "2sp-straddle" && c.flag(0.5));
+            let south = aspect.ends_with("south") || (["lat_0", "2sp-straddle", "2sp-equal"].contains(&aspect) && c.flag(0.5));
             let sg = if south { -1.0 } else { 1.0 };
             let (lat1, lat2): (f64, Option<f64>) = match aspect {
                 "1sp-north" | "1sp-south" => (sg * rd(c.lin(5.0, 85.0), 3), None),
+                "2sp-equal" => {
+                    let p = sg * rd(c.lin(5.0, 85.0), 3);
+                    (p, Some(p))
+                }
                 "2sp-north" | "2sp-south" | "lat_0" => {
                     let p1 = rd(c.lin(5.0, 80.0), 3);
                     let p2 = rd((p1 + c.lin(1.0, 30.0)).min(85.0), 3);
@@ -990,6 +1058,17 @@ fn build_projection(raw: &Raw, op: &str, aspect: &str, mut c: Cur, mut ell: Stri
             if aspect == "dt" {
                 dt = rd(c.lin(-30.0, 30.0), 2);
                 def.push_str(&format!(" dt={dt}"));
+            } else if aspect == "dt+t_epoch" {
+                // both given: whichever takes precedence, both directions must use the same duration;
+                // the epochs of the points are unrelated to t_epoch + dt
+                let d = rd(c.lin(-30.0, 30.0), 2);
+                let e = rd(c.lin(1990.0, 2020.0), 2);
+                if c.flag(0.5) {
+                    def.push_str(&format!(" dt={d} t_epoch={e}"));
+                } else {
+                    def.push_str(&format!(" t_epoch={e} dt={d}"));
+                }
+                dt = d.abs().max((e - 1985.0).abs()).max((e - 2035.0).abs());
             } else {
                 let e = rd(c.lin(1990.0, 2020.0), 2);
                 def.push_str(&format!(" t_epoch={e}"));
@@ -1031,6 +1110,8 @@ const FILE_GRIDS: &[(&str, &str, &str, f64, f64, f64, f64)] = &[
     ("gridshift", "gsb/100800401.gsb", "", 40.0, 43.0, 0.0, 3.5),
     ("deformation", "deformation/test.deformation", " dt=25", 54.0, 58.0, 8.0, 16.0),
     ("deformation", "deformation/eur_nkg_nkgrf17vel.deformation", " t_epoch=2000", 49.0, 75.0, 0.0, 50.0),
+    ("deformation", "deformation/test.deformation", " dt=25 t_epoch=2010", 54.0, 58.0, 8.0, 16.0),
+    ("deformation", "deformation/eur_nkg_nkgrf17vel.deformation", " t_epoch=2000 dt=-20", 49.0, 75.0, 0.0, 50.0),
 ];
 
 fn build_file_case(raw: &Raw) -> Case {
@@ -1071,7 +1152,7 @@ fn build_file_case(raw: &Raw) -> Case {
         .collect();
     Case {
         op: format!("{op}-file"),
-        aspect: name.to_string(),
+        aspect: if tail.contains("dt=") && tail.contains("t_epoch=") { format!("{name}+dt+t_epoch") } else { name.to_string() },
         def: format!("{op} grids={name}{tail}"),
         macros: vec![],
         ell: "GRS80".into(),
@@ -1501,7 +1582,8 @@ fn jacobian_ground<C: Context>(ctx: &C, op: OpHandle, def: &str, insp: Sp, el: &
 fn check(case: &Case, rec: &mut Rec) -> CaseResult {
     if case.op.ends_with("-file") {
         // a grid file shipped with the library, served from memory by the harness context
-        let entry = FILE_GRIDS.iter().find(|e| e.1.ends_with(&case.aspect));
+        let gridname = case.aspect.split('+').next().unwrap_or("");
+        let entry = FILE_GRIDS.iter().find(|e| e.1.ends_with(gridname));
         let Some(entry) = entry else { vfail!("harness-unknown-grid-file", "no shipped grid called {}", case.aspect) };
         let root = std::env::var("VERIF_REPO_DIR").unwrap_or_else(|_| "/repo".into());
         let path = format!("{root}/geodesy/{}", entry.1);
@@ -1510,7 +1592,7 @@ fn check(case: &Case, rec: &mut Rec) -> CaseResult {
             Err(e) => vfail!("harness-grid-file-unreadable", "cannot read {path}: {e}"),
         };
         let mut ctx = GridCtx::new();
-        match vcore::guard::guard(|| ctx.add_grid_bytes(&case.aspect, &bytes)) {
+        match vcore::guard::guard(|| ctx.add_grid_bytes(gridname, &bytes)) {
             Ok(Ok(())) => {}
             Ok(Err(e)) => vfail!(format!("shipped-grid-rejected:{}", case.aspect), "shipped grid {path} rejected by the decoder: {e:?}"),
             Err(p) => vfail!(format!("panic-grid-decode@{}", p.sig()), "decoding shipped grid {path} panics: {} at {}:{}", p.msg, p.file, p.line),
